@@ -10,7 +10,9 @@ RULE = ("Histories of solve() calls on three long-lived instances (default AtomB
         "constructor raises on 'boom' with the operator subset par/mul/truediv/add; string-concatenating atom with a "
         "custom step order as in the docs). Each call draws a valid expression of that configuration or one built to "
         "fail at a chosen token index k (unknown atom / raising atom constructor as the k-th atom, parenthesis left "
-        "open after k tokens, missing operand at the end, wrong argument count in a function). Oracle: a FRESH instance "
+        "open after k tokens, missing operand at the end, wrong argument count in a function, an unknown atom 1-8 "
+        "parenthesis levels down; atoms with quote characters); strategy long_history = 40-70 calls, most of them "
+        "failing below nested parentheses. Oracle: a FRESH instance "
         "of the same configuration created for that call must give the same value, or both must raise the same "
         "exception type. Non-trivial: the history contains a failing solve with >=1 token already stored followed "
         "later by an expression that succeeds on the fresh instance. Distinct = distinct case JSON.")
@@ -29,7 +31,7 @@ def default_expr(draw):
     if fail == "atom":
         idx = [i for i, (_x, g) in enumerate(toks) if g == "num"]
         i = idx[draw(st.integers(0, len(idx) - 1))]
-        toks[i][0] = draw(st.sampled_from(["foo", "1e", "2..3", "x1"]))
+        toks[i][0] = draw(st.sampled_from(["foo", "1e", "2..3", "x1", '5"', '"', "2'"]))
     elif fail == "open":
         i = draw(st.integers(0, len(toks)))
         toks.insert(i, ["(", "open"])
@@ -102,7 +104,22 @@ def inplace_expr(draw):
     return {"cfg": "inplace", "text": text, "fail": fail}
 
 
-call = st.one_of(default_expr(), default_expr(), lookup_expr(), string_expr(), inplace_expr())
+@st.composite
+def deep_fail(draw):
+    """A failure (or none) d parenthesis levels down: whatever is kept per level must not pile up over a long history."""
+    d = draw(st.integers(1, 8))
+    cfg = draw(st.sampled_from(["default", "default", "lookup"]))
+    bad = draw(st.sampled_from([True, True, True, False]))
+    if cfg == "default":
+        inner = ("1 + foo" if bad else "1 + 2")
+        text = "".join(f"{i + 1} * (" for i in range(d)) + inner + ")" * d
+    else:
+        inner = ("foo + boom" if bad else "foo + bar")
+        text = "".join("2 * ( " for _ in range(d)) + inner + " )" * d
+    return {"cfg": cfg, "text": text, "fail": "deep" if bad else None}
+
+
+call = st.one_of(default_expr(), default_expr(), lookup_expr(), string_expr(), inplace_expr(), deep_fail())
 
 
 @st.composite
@@ -110,8 +127,15 @@ def history(draw, n):
     return {"calls": draw(st.lists(call, min_size=2, max_size=n))}
 
 
+@st.composite
+def long_history(draw):
+    calls = draw(st.lists(st.one_of(deep_fail(), deep_fail(), deep_fail(), default_expr()), min_size=40, max_size=70))
+    return {"calls": calls + [draw(deep_fail()), draw(default_expr())]}
+
+
 def strategies(tier):
-    return {"history": (history(12 if tier == "quick" else 30), 1500, 30000)}
+    return {"history": (history(12 if tier == "quick" else 30), 1500, 30000),
+            "long_history": (long_history(), 160, 3000, 20)}
 
 
 # --------------------------------------------------------------------------- configurations
